@@ -12,7 +12,7 @@ from vf.ref import bencode
 
 ID = "C08"
 LEVEL = "exploration"
-TECHNIQUE = "Hypothesis-generated metamorphic pairs: one payload/configuration created in a canonical environment and in a variant environment (path spelling, cwd, byte-identical copy elsewhere, harness-owned enumeration order, trackers/seeds/outfile, progress/quiet mode, harness-owned clock); info bytes must be equal"
+TECHNIQUE = "Hypothesis-generated metamorphic pairs: one payload/configuration created in a canonical environment and in a variant environment (path spelling, cwd, byte-identical copy elsewhere, harness-owned enumeration order, trackers/seeds/outfile, progress/quiet mode, harness-owned clock); info bytes must be equal ; output file inside the payload directory"
 RULE = ("Cases: base configuration (tree, piece length, creator among all five, route library/CLI, private/source/comment) created once in a "
         "canonical environment and once in a variant that differs in any subset of: path spelling (absolute, relative to a drawn cwd, './', "
         "inner 'x/../', doubled separators, trailing '/', trailing '/.', 'sub/..', cwd inside the payload with path '.'), cwd, a "
